@@ -107,14 +107,14 @@ PROPS["C08"] = {
     "level": "exploration",
     "rule": "case = one seeded history over 5 stream names of create+write / remove / shrink / grow (lengths on both sides of 64, "
             "512, 4096, sector size), all payload bytes non-zero; after every growing set_len the gained range is read through the same "
-            "handle, after flush through a reopen in both modes, and must be all zero; a stale byte is classified by provenance; one in ten steps keeps a single handle open across long write / shrink / write at the new end / grow; a third of the histories start from a synthesised foreign file with garbage behind every stream end and in all free (mini) sectors; one step in 25 shrinks a scratch stream through a second handle and grows it through the stale first one (gained bytes = everything beyond the real end). "
+            "handle, after flush through a reopen in both modes, and must be all zero; a stale byte is classified by provenance; one in ten steps keeps a single handle open across long write / shrink / write at the new end / grow, or (a third of those) reads a little near the start, shrinks and grows with the position inside what remains and reads the gained bytes through the still-warm window; a third of the histories start from a synthesised foreign file with garbage behind every stream end and in all free (mini) sectors; one step in 25 shrinks a scratch stream through a second handle and grows it through the stale first one (gained bytes = everything beyond the real end). "
             "non-trivial = history containing >= 1 checked grow; distinct = FNV-64 of steps",
     "assumptions": COMMON_ASSUMPTIONS,
     "checked_share": 0.6,
     "quick": {"budget_s": 15},
     "thorough": {"budget_s": 240},
     "floors": {
-        "quick": {"grows_checked": 20000, "grow.mini->mini": 5000, "grow.mini->regular": 3000, "grow.regular->regular": 500, "grow.empty->mini": 1000, "start.foreign_dirty_slack": 3000, "grows_after_shrink_through_another_handle": 10000},
+        "quick": {"grows_checked": 20000, "grow.mini->mini": 5000, "grow.mini->regular": 3000, "grow.regular->regular": 500, "grow.empty->mini": 1000, "start.foreign_dirty_slack": 3000, "grows_after_shrink_through_another_handle": 10000, "grows_under_a_warm_window": 3000},
         "thorough": {"grows_checked": 200000},
     },
 }
@@ -226,7 +226,7 @@ PROPS["C04"] = {
             "from the boundary set, CLSIDs/state/times) written by the independent synthesiser under a random legal layout (sector "
             "roles permuted with FREE sectors in between, fragmented non-monotone chains, directory entries in random slots with gaps, "
             "textbook red-black sibling trees, permuted mini sectors, FAT sectors anywhere, garbage in all unowned bytes (a third), one or two spare FAT sectors (two fifths; such files are then grown until the library appends a FAT sector of its own), other header minor versions, red tops of sibling trees where that creates no red-red edge, a partial final sector (file ends after the last used byte), a spare DIFAT sector at the end of the chain (such files are grown by 140 KB and the stored bytes reopened), opened with several buffer sizes, one > 109-FAT-sector DIFAT-chain image per "
-            "shard); must pass the synth/refparse self-check (else harness error), then open strict+permissive with dump == tree and "
+            "shard; on two shards a version 4 file of 1-4.8 GB built sector by sector on the sparse store - 237-436 or 1133-1152 FAT sectors placed at every third sector, one or two DIFAT sectors with more than 127 entries in use, second directory sector and a scrambled stream chain in the last sectors - opened in both modes, read, extended into its free sectors and past its FAT, and reopened); must pass the synth/refparse self-check (else harness error), then open strict+permissive with dump == tree and "
             "case-variant lookups, then a 10-30 step history with the C01+C02+C03 monitors. non-trivial = image with >= 3 objects "
             "accepted in both modes; distinct = FNV-64 of the image bytes",
     "assumptions": COMMON_ASSUMPTIONS + ["synth.rs writes only spec-valid layouts (enforced per image by refparse's rule set and logical decode)"],
@@ -235,8 +235,8 @@ PROPS["C04"] = {
     "thorough": {"budget_s": 300},
     "floors": {
         "quick": {"opened.Strict": 8000, "opened.Permissive": 8000, "layout.red_nodes": 5000, "layout.dir_gaps": 5000, "layout.fragmented_chain": 3000,
-                  "layout.out_of_order_fat": 5000, "layout.free_sectors_inside": 2000, "layout.difat_chain": 8, "mutated_afterwards": 8000, "layout.spare_fat_sectors": 1500, "layout.dirty_slack_and_free_sectors": 1500, "spare_fat_filled_past_coverage": 800, "layout.partial_final_sector": 60, "spare_difat_grown_and_reopened": 1},
-        "thorough": {"opened.Strict": 100000, "layout.difat_chain": 50},
+                  "layout.out_of_order_fat": 5000, "layout.free_sectors_inside": 2000, "layout.difat_chain": 8, "mutated_afterwards": 8000, "layout.spare_fat_sectors": 1500, "layout.dirty_slack_and_free_sectors": 1500, "spare_fat_filled_past_coverage": 800, "layout.partial_final_sector": 60, "spare_difat_grown_and_reopened": 1, "sparse_foreign.scenarios_passed": 2, "sparse_foreign.modified_and_reopened": 2},
+        "thorough": {"opened.Strict": 100000, "layout.difat_chain": 50, "sparse_foreign.scenarios_passed": 2},
     },
 }
 
